@@ -674,8 +674,8 @@ func init() {
 						if len(a) == 0 {
 							break
 						}
-						if n, ok := a[0].(*tengo.Int); ok {
-							a[0] = &tengo.Int{Value: n.Value % 50}
+						if n, ok := tengo.ToInt(a[0]); ok && (n > 50 || n < -50) {
+							a[0] = &tengo.Int{Value: int64(n % 50)}
 						}
 					}
 					if c.Mod == "times" && c.Fn == "sleep" && len(a) == 1 {
